@@ -52,6 +52,18 @@ pub trait Property: Sync {
     fn strategy(&self, tier: Tier) -> BoxedStrategy<Self::Case>;
     fn cases(&self, tier: Tier) -> u32;
     fn run(&self, case: &Self::Case) -> RunReport;
+    /// `run`, with a panic of the harness itself (outside the logical threads) turned into an inconclusive report
+    fn run_guarded(&self, case: &Self::Case) -> RunReport {
+        match std::panic::catch_unwind(std::panic::AssertUnwindSafe(|| self.run(case))) {
+            Ok(r) => r,
+            Err(p) => {
+                let msg = crate::sched::panic_message(&p);
+                let mut r = RunReport::pass();
+                r.verdict = Verdict::Inconclusive(format!("harness-panic: {}", msg.chars().take(120).collect::<String>()));
+                r
+            },
+        }
+    }
     /// how cases are generated and what makes one non-trivial / distinct
     fn rule(&self) -> String;
     /// access to the schedule inside a case, if it has one (for trace minimisation)
@@ -70,6 +82,7 @@ pub struct Cfg {
     pub case_scale: f64,
     /// triage aid (VERIF_SURVEY=1): every violation is only counted by signature, the search never stops
     pub survey: bool,
+    pub inflight_every_case: bool,
 }
 
 #[derive(Clone, Debug)]
@@ -117,6 +130,18 @@ pub struct PartResult {
 }
 
 pub static PROGRESS: AtomicU64 = AtomicU64::new(0);
+
+/// Before a case is executed it is written to `inflight-<property>-<part>-w<k>.json`: if the case crashes the whole process
+/// (memory corruption inside the library), the supervising parent process finds the culprit among these files.
+fn write_inflight<C: Serialize>(cfg: &Cfg, part: &str, worker: usize, case: &C) {
+    let path = cfg.replays_out.join(format!("inflight-{}-{}-w{}.json", cfg.property, part, worker));
+    let file = ReplayFile { property: cfg.property.clone(), part: part.to_string(), signature: "inflight".into(), detail: String::new(), expect: None,
+                            case: serde_json::to_value(case).unwrap_or(Value::Null) };
+    let _ = std::fs::write(path, serde_json::to_string(&file).unwrap_or_default());
+}
+fn clear_inflight(cfg: &Cfg, part: &str, worker: usize) {
+    let _ = std::fs::remove_file(cfg.replays_out.join(format!("inflight-{}-{}-w{}.json", cfg.property, part, worker)));
+}
 pub static SURVEY_DETAILS: Mutex<BTreeMap<String, String>> = Mutex::new(BTreeMap::new());
 
 fn mix(a: u64, b: u64) -> u64 {
@@ -160,13 +185,15 @@ pub fn run_part<P: Property>(prop: &P, cfg: &Cfg) -> PartResult {
     let is_known = |sig: &str| survey || known.iter().any(|k| k.signature == sig);
     let failure: Mutex<Option<P::Case>> = Mutex::new(None);
 
+    let _ = std::fs::create_dir_all(&cfg.replays_out);
     // --- bounded-exhaustive phase
     if let Some(iter) = prop.exhaustive(cfg.tier) {
         let mut count = 0u64;
         for case in iter {
             count += 1;
             PROGRESS.fetch_add(1, Ordering::Relaxed);
-            let rep = prop.run(&case);
+            if count % 64 == 1 || cfg.inflight_every_case { write_inflight(cfg, prop.part(), 99, &case); }
+            let rep = prop.run_guarded(&case);
             account(&shared, &rep, || serde_json::to_value(&case).unwrap_or(Value::Null));
             if let Verdict::Violation { signature, .. } = &rep.verdict {
                 if is_known(signature) {
@@ -177,6 +204,7 @@ pub fn run_part<P: Property>(prop: &P, cfg: &Cfg) -> PartResult {
                 }
             }
         }
+        clear_inflight(cfg, prop.part(), 99);
         shared.res.lock().unwrap().exhaustive = Some(count);
     }
 
@@ -208,13 +236,14 @@ pub fn run_part<P: Property>(prop: &P, cfg: &Cfg) -> PartResult {
                     let result = runner.run(&strategy, |case| {
                         if !failed_here.get() && shared.stop.load(Ordering::Relaxed) { return Ok(()); }
                         PROGRESS.fetch_add(1, Ordering::Relaxed);
-                        let rep = prop.run(&case);
+                        write_inflight(cfg, prop.part(), w, &case);
+                        let rep = prop.run_guarded(&case);
                         if !failed_here.get() {
                             account(shared, &rep, || serde_json::to_value(&case).unwrap_or(Value::Null));
                         }
                         match &rep.verdict {
                             Verdict::Violation { signature, detail } => {
-                                if survey { SURVEY_DETAILS.lock().unwrap().entry(signature.clone()).or_insert_with(|| detail.clone()); }
+                                if survey { SURVEY_DETAILS.lock().unwrap().entry(signature.clone()).or_insert_with(|| format!("{}\n    CASE {}", detail, serde_json::to_string(&ReplayFile { property: String::new(), part: prop.part().to_string(), signature: signature.clone(), detail: String::new(), expect: None, case: serde_json::to_value(&case).unwrap_or(Value::Null) }).unwrap_or_default())); }
                                 if is_known(signature) {
                                     if !failed_here.get() {
                                         *shared.res.lock().unwrap().known_hits.entry(signature.clone()).or_insert(0) += 1;
@@ -229,6 +258,7 @@ pub fn run_part<P: Property>(prop: &P, cfg: &Cfg) -> PartResult {
                             _ => Ok(()),
                         }
                     });
+                    clear_inflight(cfg, prop.part(), w);
                     match result {
                         Ok(()) => {},
                         Err(TestError::Fail(_, case)) => {
@@ -275,7 +305,7 @@ pub struct ReplayFile {
 fn confirm_and_minimise<P: Property>(prop: &P, cfg: &Cfg, mut case: P::Case, is_known: &dyn Fn(&str) -> bool)
                                     -> Result<(String, String, std::path::PathBuf), String> {
     let fails = |c: &P::Case| -> Option<(String, String, Option<Vec<(u32, u8)>>)> {
-        let rep = prop.run(c);
+        let rep = prop.run_guarded(c);
         match rep.verdict {
             Verdict::Violation { signature, detail } if !is_known(&signature) => Some((signature, detail, rep.trace)),
             _ => None,
@@ -335,7 +365,7 @@ fn confirm_and_minimise<P: Property>(prop: &P, cfg: &Cfg, mut case: P::Case, is_
 /// Re-runs one replay file against `prop` (strict: known findings are reported as violations too)
 pub fn replay_part<P: Property>(prop: &P, file: &ReplayFile) -> Result<RunReport, String> {
     let case: P::Case = serde_json::from_value(file.case.clone()).map_err(|e| format!("cannot decode case: {e}"))?;
-    Ok(prop.run(&case))
+    Ok(prop.run_guarded(&case))
 }
 
 pub struct PropertyResult {
